@@ -1047,6 +1047,9 @@ func (env *Env) evalCall(e *SCall) (Val, error) {
 				base = env.old.Get("clk", SInt)
 			}
 			return Val{T: tLt(base, Term{fmt.Sprintf("(atime %s)", r.S), SInt})}, nil
+		case "deferred":
+			// deferred(): the call this clause speaks about runs as a deferred call, i.e. when the function returns
+			return Val{T: tBool(env.fr.inDefer)}, nil
 		case "funcval":
 			// funcval("(*T).Method") / funcval("name"): the function value of a function of the current package
 			lit, ok := e.Args[0].(*SStrLit)
